@@ -28,6 +28,14 @@ type tfield struct {
 	IsS  bool   `json:"is_str,omitempty"`
 }
 
+// ctxLit is one literal of a several-literal chunk: an unsigned numeral (hex of its text), negated
+// or not, or the source text of a string literal.
+type ctxLit struct {
+	Str bool   `json:"str,omitempty"`
+	Neg bool   `json:"neg,omitempty"`
+	Src string `json:"src_hex"`
+}
+
 // in is the replayable input of one case.
 type in struct {
 	Kind  string   `json:"kind"` // quote short long lit scan num numb tostr datet time strf
@@ -40,6 +48,7 @@ type in struct {
 	Bits  string   `json:"bits,omitempty"` // float64 bit pattern, decimal
 	T     int64    `json:"t,omitempty"`
 	Tbl   []tfield `json:"tbl,omitempty"`
+	Lits  []ctxLit `json:"lits,omitempty"`
 }
 
 var L *lua.LState
@@ -381,6 +390,79 @@ func runCase(w *lib.Writer, c in, kf ...string) {
 		kc.Observed = int64(v)
 		kc.Coq = fmt.Sprintf("CTime %s %s", lib.CoqList(terms), lib.CoqZ(int64(v)))
 		kc.Nontrivial = true
+	case "ctx":
+		// all literals are constants of ONE function; each numeral is observed as v, 1/v, tostring(v)
+		var decl, vars, rets, terms []string
+		for i, l := range c.Lits {
+			v := fmt.Sprintf("v%d", i+1)
+			vars = append(vars, v)
+			src := string(unhex(l.Src))
+			if l.Str {
+				decl = append(decl, src)
+				rets = append(rets, v)
+				terms = append(terms, "XStr "+lib.CoqBytes(unhex(l.Src)))
+			} else {
+				if l.Neg {
+					src = "-" + src
+				}
+				decl = append(decl, src)
+				rets = append(rets, v, "1/"+v, "tostring("+v+")")
+				terms = append(terms, fmt.Sprintf("XNum %s %s", lib.CoqBool(l.Neg), lib.CoqBytes(unhex(l.Src))))
+			}
+		}
+		chunk := "local " + strings.Join(vars, ", ") + " = " + strings.Join(decl, ", ") + "\nreturn " + strings.Join(rets, ", ")
+		res, errs, pan := evalChunk(chunk)
+		if pan != "" {
+			w.GoFail(id, "Go panic escaped from a several-literal chunk: "+pan)
+		}
+		obsTerm := "None"
+		var obsJ []any
+		if errs == "" && pan == "" {
+			var os []string
+			k := 0
+			for _, l := range c.Lits {
+				if l.Str {
+					if k < len(res) {
+						if sv, ok := res[k].(lua.LString); ok {
+							os = append(os, "OStr "+lib.CoqBytes([]byte(string(sv))))
+							obsJ = append(obsJ, lib.Hex([]byte(string(sv))))
+							k++
+							continue
+						}
+					}
+					os = append(os, "OBad")
+					obsJ = append(obsJ, nil)
+					k++
+					continue
+				}
+				okk := k+2 < len(res)
+				var x, inv lua.LNumber
+				var st lua.LString
+				if okk {
+					var o1, o2, o3 bool
+					x, o1 = res[k].(lua.LNumber)
+					inv, o2 = res[k+1].(lua.LNumber)
+					st, o3 = res[k+2].(lua.LString)
+					okk = o1 && o2 && o3
+				}
+				if okk {
+					nz := float64(x) == 0 && math.IsInf(float64(inv), -1)
+					os = append(os, fmt.Sprintf("ONum %s %s %s", fvalTerm(float64(x)), lib.CoqBool(nz), lib.CoqBytes([]byte(string(st)))))
+					obsJ = append(obsJ, map[string]any{"x": obsNum(float64(x), true), "inv": obsNum(float64(inv), true), "str": string(st)})
+				} else {
+					os = append(os, "OBad")
+					obsJ = append(obsJ, nil)
+				}
+				k += 3
+			}
+			if k != len(res) {
+				os = append(os, "OBad")
+			}
+			obsTerm = "(Some " + lib.CoqList(os) + ")"
+		}
+		kc.Observed = map[string]any{"chunk": chunk, "results": obsJ, "error": errs}
+		kc.Coq = fmt.Sprintf("CCtx %s %s", lib.CoqList(terms), obsTerm)
+		kc.Nontrivial = len(c.Lits) >= 2
 	case "strf":
 		res, errs, pan := callFn(field("os", "date"), lua.LString("!"+string(s)), lua.LNumber(c.T))
 		o, ok := oneString(res)
